@@ -128,6 +128,10 @@ class Lib:
                      "slice"):
             T[getattr(builtins, name)] = getattr(self, "b_" + name)
         T[builtins.exec] = self.b_exec
+        import statistics
+        T[statistics.mean] = self.c_stat_mean
+        self.construct_table[operator.itemgetter] = lambda I, a, k, n: LibFn(
+            lambda I2, a2, k2, n2, keys=list(a): I2.getitem(a2[0], keys[0], n2) if len(keys) == 1 else tuple(I2.getitem(a2[0], kk, n2) for kk in keys), "operator.itemgetter")
         T[datetime.date] = self.c_date
         T[datetime.date.fromordinal] = self.c_fromordinal
         T[calendar.monthrange] = self.c_monthrange
@@ -435,9 +439,18 @@ class Lib:
             n = src.length
             if isinstance(n, SV) and not z3.is_int_value(z3.simplify(n.t)):
                 return True
+        if type(src).__name__ == "NDArr" and src.ndim >= 1 and isinstance(src.shape[0], SV):
+            return True
         return None
 
+    def as_sseq(self, I, src, node=None):
+        """View an NDArr with a symbolic first dimension as a symbolic sequence of its rows."""
+        if type(src).__name__ == "NDArr":
+            return SSeq(src.shape[0], lambda i: self.numpy.row_view(I, src, i), "list")
+        return src
+
     def symbolic_comprehension(self, I, e, fr, src, kind):
+        src = self.as_sseq(I, src)
         gen = e.generators[0]
         if gen.ifs:
             # a filter that is concretely True for the generic element is a no-op (e.g. `if x is not None`)
@@ -1374,6 +1387,17 @@ class Lib:
                 acc = I.call(func, [acc, x], {}, n) if func is not None else I.binop("+", acc, x, n)
             out.append(acc)
         return tuple_iter(out)
+
+    def c_stat_mean(self, I, a, k, n):
+        items = I.iterate(a[0], n)
+        if not items:
+            import statistics
+            I.raise_exc(statistics.StatisticsError, "mean requires at least one data point")
+        I.ctx.note_assumption("statistics.mean(xs) == sum(xs)/len(xs) over the reals, NaN-propagating (validated against the library)")
+        acc = 0
+        for x in items:
+            acc = I.binop("+", acc, x, n)
+        return I.binop("/", acc, len(items), n)
 
     def c_repeat(self, I, a, k, n):
         if len(a) < 2:
